@@ -14,6 +14,9 @@ use std::fmt::Debug;
 pub struct Walk {
     pub events: Vec<String>,
     pub findings: Vec<(String, String)>,
+    /// (name of the referenced rule / built-in, address of the node stored in the content),
+    /// in derivation order: what the getters must hand out (C16: "the very node").
+    pub addrs: Vec<(String, usize)>,
 }
 
 impl Walk {
@@ -25,6 +28,10 @@ impl Walk {
             self.findings.push((sig.to_string(), what));
         }
     }
+}
+
+pub fn addr<T>(name: &str, v: &T, w: &mut Walk) {
+    w.addrs.push((name.to_string(), v as *const T as usize));
 }
 
 pub fn str_leaf<T: StringWrapper>(_v: &Str<T>, lit: &str, w: &mut Walk) {
